@@ -265,10 +265,11 @@ def ladder_paths(lib, f, slot_syms):
                 regs["RAX"] = ("src", XCR)
                 regs["RDX"] = ("src", ("xcr0", "EDX"))
                 continue
-            if op in ("AND32ri", "AND32ri8", "AND64ri8", "AND64ri32"):
-                r = x86.PARENT[i.reg(0)]
+            if op in ("AND32ri", "AND32ri8", "AND64ri8", "AND64ri32", "AND32i32", "AND64i32"):
+                short = op in ("AND32i32", "AND64i32")           # accumulator form: and eax, imm32
+                r = "RAX" if short else x86.PARENT[i.reg(0)]
                 v = regs.get(r)
-                m = i.imm(2) & M32
+                m = (i.imm(0) if short else i.imm(2)) & M32
                 if v and v[0] == "src":
                     nv = ("and", v[1], m)
                 elif v and v[0] == "and":
